@@ -28,6 +28,8 @@ from typing import Any
 class LazyIgnoresConfig:  # pylint: disable=too-many-instance-attributes
     """Configuration for the lazy-ignores linter."""
 
+    enabled: bool = True
+
     # Pattern detection toggles
     check_noqa: bool = True
     check_type_ignore: bool = True
@@ -58,6 +60,7 @@ class LazyIgnoresConfig:  # pylint: disable=too-many-instance-attributes
     def from_dict(cls, config_dict: dict[str, Any]) -> "LazyIgnoresConfig":
         """Create config from dictionary."""
         return cls(
+            enabled=config_dict.get("enabled", True),
             check_noqa=config_dict.get("check_noqa", True),
             check_type_ignore=config_dict.get("check_type_ignore", True),
             check_pylint_disable=config_dict.get("check_pylint_disable", True),
